@@ -175,6 +175,8 @@ impl<'r> Gen<'r> {
             } else {
                 name
             };
+            // the suffix may reproduce an earlier long name
+            let name = if used_types.contains(&name) { format!("{name}_{}", used_types.len()) } else { name };
             used_types.insert(name.clone());
             let nparams = if self.prof.poly { [0, 1, 1, 2][self.rng.below(4)] } else { 0 };
             let params: Vec<String> = ["A", "B"][..nparams].iter().map(|s| s.to_string()).collect();
@@ -201,6 +203,10 @@ impl<'r> Gen<'r> {
                     format!("{xname}_{}", "zyxwvutsrqponmlkjihgfedcba".chars().cycle().skip(self.rng.below(26)).take(n).collect::<String>())
                 } else {
                     xname
+                };
+                let xname = {
+                    let set = if is_data { &used_ctors } else { &used_dtors };
+                    if set.contains(&xname) || used_types.contains(&xname) { format!("{xname}_{}", set.len() + used_types.len()) } else { xname }
                 };
                 if is_data { used_ctors.insert(xname.clone()); } else { used_dtors.insert(xname.clone()); }
                 let base = is_data && xi == 0;
